@@ -4,6 +4,7 @@ import (
 	"encoding/json"
 	"errors"
 	"fmt"
+	"runtime"
 	"sort"
 	"strings"
 	"testing"
@@ -28,6 +29,17 @@ type ProcPlan struct {
 	// is the queue closed, so a result that is never delivered cannot be
 	// mistaken for the zero Result of the closed channel.
 	CollectFirst bool `json:"collect_first,omitempty"`
+	// Batch > 1: operations are submitted Batch at a time (Process is variadic).
+	Batch int `json:"batch,omitempty"`
+}
+
+// effectiveThreads is what NewProcessor documents: a thread count below 1 or
+// above GOMAXPROCS means GOMAXPROCS (pinned by the harness).
+func effectiveThreads(t int) int {
+	if m := runtime.GOMAXPROCS(0); t < 1 || t > m {
+		return m
+	}
+	return t
 }
 
 type procOp struct{ v int }
@@ -53,7 +65,7 @@ func runProcessor(t *testing.T, c *Case, o RunOpts) *Result {
 	if err := json.Unmarshal(c.Plan, &pl); err != nil {
 		return &Result{ToolErr: err.Error()}
 	}
-	return execSim(t, c, o, 4000+400*len(pl.Ops)*maxInt(1, pl.Threads), false, func(sim *simrt.Sim) func() {
+	return execSim(t, c, o, 4000+400*len(pl.Ops)*effectiveThreads(pl.Threads), false, func(sim *simrt.Sim) func() {
 		var got []int
 		consumerDone, waitReturned, closedSeen := false, false, false
 		var p *concurrent.Processor
@@ -61,8 +73,18 @@ func runProcessor(t *testing.T, c *Case, o RunOpts) *Result {
 			queue := make(chan concurrent.Operator, pl.Queue)
 			p = concurrent.NewProcessor(queue, pl.Buffer, pl.Threads)
 			sim.Go("producer", func() {
-				for _, v := range pl.Ops {
-					p.Process(procOp{v})
+				if pl.Batch > 1 {
+					for i := 0; i < len(pl.Ops); i += pl.Batch {
+						var batch []concurrent.Operator
+						for _, v := range pl.Ops[i:minInt(i+pl.Batch, len(pl.Ops))] {
+							batch = append(batch, procOp{v})
+						}
+						p.Process(batch...)
+					}
+				} else {
+					for _, v := range pl.Ops {
+						p.Process(procOp{v})
+					}
 				}
 				if pl.CollectFirst {
 					sim.Await("collected")
@@ -134,8 +156,8 @@ func runProcessor(t *testing.T, c *Case, o RunOpts) *Result {
 					}
 				}
 			}
-			if nw != pl.Threads {
-				sim.Fail("oracle", "processor-workers", fmt.Sprintf("%d worker goroutines for threads=%d", nw, pl.Threads))
+			if want := effectiveThreads(pl.Threads); nw != want {
+				sim.Fail("oracle", "processor-workers", fmt.Sprintf("%d worker goroutines for threads=%d (GOMAXPROCS %d)", nw, pl.Threads, runtime.GOMAXPROCS(0)))
 			}
 		}
 	})
@@ -147,12 +169,18 @@ func genProcessor(r *simrt.RNG) *Case {
 		pl.Threads = r.Range(5, 8) // GOMAXPROCS is pinned to 8
 		pl.Buffer = r.Pick(0, 1, 8, 16)
 	}
-	T := pl.Threads
+	if r.Intn(15) == 0 {
+		pl.Threads = r.Pick(0, -1, 9, 100) // documented to mean GOMAXPROCS
+	}
+	T := effectiveThreads(pl.Threads)
 	n := r.Pick(0, 1, maxInt(T-1, 0), T, T+1, 2*T+1, r.Intn(8))
 	if r.Intn(12) == 0 {
 		n = r.Range(10, 24)
 	}
 	pl.CollectFirst = r.Intn(3) == 0
+	if r.Intn(4) == 0 {
+		pl.Batch = r.Range(2, 5)
+	}
 	for i := 0; i < n; i++ {
 		v := i + 1
 		if r.Intn(4) == 0 {
@@ -183,9 +211,14 @@ func shrinkProcessor(c *Case) []*Case {
 		q.Ops = append(append([]int(nil), pl.Ops[:i]...), pl.Ops[i+1:]...)
 		add(q)
 	}
-	if pl.Threads > 1 {
+	if pl.Threads > 1 && pl.Threads <= 8 {
 		q := pl
 		q.Threads--
+		add(q)
+	}
+	if pl.Batch > 1 {
+		q := pl
+		q.Batch = 0
 		add(q)
 	}
 	if pl.Buffer > 0 {
@@ -319,6 +352,9 @@ func genMap(r *simrt.RNG) *Case {
 	pl := MapPlan{Len: r.Intn(13), Threads: r.Range(1, 4), MaxChunk: r.Range(1, 5)}
 	if r.Intn(10) == 0 {
 		pl.Len, pl.Threads = r.Range(13, 40), r.Range(1, 8)
+	}
+	if r.Intn(15) == 0 {
+		pl.Threads = r.Pick(9, 12, 40) // more than GOMAXPROCS: clamped for the workers, not for the chunk size
 	}
 	if r.Intn(5) == 0 {
 		pl.MaxChunk = r.Range(1, 20)
